@@ -266,6 +266,11 @@ def cells(tier, seed):
     for cls in CLASSES:
         out.append({"part": "roundtrip", "cls": cls, "group": ["rt", cls], "cost": 2.0})
     out.append({"part": "scan", "group": ["scan"], "cost": 2.0})
+    # random compositions from the C04 operation grammar, traced as a whole
+    nprog = 24 if tier == "quick" else 160
+    for i in range(nprog):
+        out.append({"part": "composition", "prog": i, "maxlen": 4 if tier == "quick" else 6,
+                    "D": 1 + i % 3, "group": ["comp", i % 16], "cost": 3.0})
     return out
 
 
@@ -510,6 +515,63 @@ def run_scan(cell, rec, seed):
                   mech="scan-value")
 
 
+def run_composition(cell, rec, seed):
+    """a random program of the C04 grammar as one function of a scalar that scales the start
+    object's information vector / mean: eager vs jit, and d/ds by grad vs finite differences."""
+    import jax
+    from jax import numpy as jnp
+    from . import c04
+
+    i, D, maxlen = cell["prog"], cell["D"], cell["maxlen"]
+    prng = gen.rng_for(seed, "C18prog", i)
+    ops = c04.gen_program(prng, D, maxlen)
+    # the truncated-measure based links build Python-level index logic that is exercised by the
+    # templates; keep compositions to the operations of the property's round-trip list + smooth
+    info = {"program": [list(map(str, o)) for o in ops]}
+    rec.set_ctx(cell=cell, **info)
+    key = (seed, "C18ops", i)
+    try:
+        c04.execute(ops, key, "A", None, rec, info)  # eager NumPy pass: domain guard only
+    except c04.Stop:
+        rec.count("out_of_domain")
+        return
+    except Exception as e:
+        rec.count("eager_reference_raises")  # C04's business (same grammar), not judged here
+        return
+
+    def f(s):
+        return c04.execute(ops, key, "A", None, rec, info, scale=s)
+
+    one = jnp.asarray(1.0)
+    ref = _call(rec, "eager", lambda: _flat(f(one)), info, "composition-eager-raises")
+    if ref is None:
+        return
+    rec.cell(["composition", c04.signature(ops)], True)
+    got = _call(rec, "jit", lambda: _flat(jax.jit(f)(one)), info, "composition-jit-raises")
+    if got is not None:
+        for k, (g, r) in enumerate(zip(got, ref)):
+            rec.close(f"composition: jit == eager [out {k}]", g, r, ns=1.0 + np.max(np.abs(r)),
+                      detail=info, mech="composition-jit-differs")
+    wts = [gen.vec(gen.rng_for(seed, "C18cw", i, k), *r.shape) for k, r in enumerate(ref)]
+
+    def scalar(s):
+        return sum(jnp.sum(jnp.asarray(o) * J(w)) for o, w in zip(f(s), wts))
+
+    g = _call(rec, "grad", lambda: float(jax.grad(scalar)(one)), info, "composition-grad-raises")
+    if g is not None and np.isfinite(g):
+        h = 1e-3
+        d1 = (float(scalar(one + h)) - float(scalar(one - h))) / (2 * h)
+        d2 = (float(scalar(one + h / 2)) - float(scalar(one - h / 2))) / h
+        rich = (4 * d2 - d1) / 3
+        est = abs(d2 - d1)
+        tol = max(1e-6 * (1.0 + abs(float(scalar(one))) + abs(rich)), 10 * est)
+        has_het = any(o[0] == "approx" and o[1] in build.HET_KINDS for o in ops)
+        if has_het:
+            tol = max(tol, 1e-4 * (1.0 + abs(rich)))
+        rec.close("composition: grad == finite differences", g, rich, ns=tol / 1e-8,
+                  detail=dict(info, fd_error_estimate=est), mech="composition-grad-differs")
+
+
 def run_cell(cell, rec, seed):
-    {"program": run_program, "roundtrip": run_roundtrip, "scan": run_scan}[cell["part"]](
-        cell, rec, seed)
+    {"program": run_program, "roundtrip": run_roundtrip, "scan": run_scan,
+     "composition": run_composition}[cell["part"]](cell, rec, seed)
